@@ -98,6 +98,10 @@ def flow_matrix():
     for T in FLOW_EXPR:
         for S, kinds in FLOW_EXPR.items():
             ok = S == T or (S, T) in FLOW_OK
+            kinds = dict(kinds)
+            # a conditional expression of which only ONE branch has type S (the other conforms to T)
+            kinds["conditional-one-branch"] = "if vi > 0 then %s else %s" % (list(kinds.values())[1], FLOW_CONFORMING[T])
+            kinds["conditional-else-branch"] = "if vi > 0 then %s else %s" % (FLOW_CONFORMING[T], list(kinds.values())[0])
             for kind, e in kinds.items():
                 progs = {
                     "implicit-return": "def q() -> %s => %s\n" % (T, e),
@@ -108,6 +112,19 @@ def flow_matrix():
                     "argument": "def take(p: %s) -> Int => 1\ndef r := take(%s)\n" % (T, e),
                     "method-argument": "class Tk\n    def take(fin self, p: %s) -> Int => 1\ndef r := Tk().take(%s)\n" % (T, e),
                     "in-function-initialiser": "def q() -> Int =>\n    def r: %s := %s\n    1\n" % (T, e),
+                    # the same positions inside loop bodies, branches and as statements
+                    "explicit-return-in-for": "def q() -> %s =>\n    for i9 in 0 .. 2 do\n        return %s\n    %s\n" % (T, e, FLOW_CONFORMING[T]),
+                    "explicit-return-in-while": "def q() -> %s =>\n    while vi > 0 do\n        return %s\n    %s\n" % (T, e, FLOW_CONFORMING[T]),
+                    "explicit-return-in-branch-in-for": "def q() -> %s =>\n    for i9 in 0 .. 2 do\n        if i9 > 0 then\n            return %s\n    %s\n" % (T, e, FLOW_CONFORMING[T]),
+                    "explicit-return-in-branch": "def q() -> %s =>\n    if vi > 0 then\n        return %s\n    %s\n" % (T, e, FLOW_CONFORMING[T]),
+                    "reassignment-in-for": "def r: %s := %s\nfor i9 in 0 .. 2 do\n    r := %s\n" % (T, FLOW_CONFORMING[T], e),
+                    "reassignment-in-function-loop": "def q() -> Int =>\n    def r: %s := %s\n    while vi > 5 do\n        r := %s\n    1\n" % (T, FLOW_CONFORMING[T], e),
+                    "statement-call-argument": "def take(p: %s) -> Int => 1\ntake(%s)\n" % (T, e),
+                    "argument-in-while": "def take(p: %s) -> Int => 1\nwhile vi > 5 do\n    take(%s)\n" % (T, e),
+                    "field-assignment": "class Hold\n    def h: %s := %s\ndef hd := Hold()\nhd.h := %s\n" % (T, FLOW_CONFORMING[T], e),
+                    "constructor-argument": "class Box(def c: %s)\ndef bx := Box(%s)\n" % (T, e),
+                    "default-value": "def dv(p: %s := %s) -> Int => 1\n" % (T, e),
+                    "method-default-value": "class Dm\n    def dv(fin self, p: %s := %s) -> Int => 1\n" % (T, e),
                 }
                 for pos, body in progs.items():
                     out.append(("%s<-%s/%s/%s" % (T, S, kind, pos), FLOW_PRE + body, ok))
